@@ -1,0 +1,34 @@
+// Copyright Amazon.com, Inc. or its affiliates. All Rights Reserved.
+// SPDX-License-Identifier: Apache-2.0
+
+//! Verification hooks (compiled only with `--cfg aws_s2n_quic_verif`).
+//!
+//! Exposes otherwise private items to the external verification harness. No production
+//! code path calls into this module.
+
+use s2n_quic_core::varint::VarInt;
+
+/// Wrapper around the private `sender::State`
+pub struct Sender(super::sender::State);
+
+impl Sender {
+    pub fn new() -> Self {
+        Self(super::sender::State::new(
+            [0; crate::packet::secret_control::TAG_LEN],
+        ))
+    }
+
+    pub fn next_key_id(&self) -> VarInt {
+        self.0.next_key_id()
+    }
+
+    pub fn update_for_stale_key(&self, min_key_id: VarInt) {
+        self.0.update_for_stale_key(min_key_id)
+    }
+}
+
+impl Default for Sender {
+    fn default() -> Self {
+        Self::new()
+    }
+}
